@@ -23,8 +23,8 @@ ASSUMPTIONS = [
     "storage never fails in this check (faults are C19); only latency, interleaving at "
     "filesystem calls, listing order and store mode vary",
     "calls that reach SimFS from inside a pyarrow C++ call are atomic steps (no context switch)",
-    "the Hilbert-distance oracle is the library's pandas-level hilbert_distance on a fresh "
-    "array against the model's tight total bounds",
+    "the Hilbert-distance oracle is an independent reference (classical curve over the bbox-centre "
+    "cell, same float64 scaling) against the model's tight total bounds",
 ]
 COMPONENTS = {
     "real": ["spatialpandas (from /repo)", "dask graph construction/optimisation", "pandas",
